@@ -3,6 +3,7 @@
 Every call re-extracts from the tree's current sources: the fingerprints of `fatfs` and `vf_witness` are
 deleted first and the resulting fact files must carry this run's nonce (cargo's freshness cache can therefore
 never replay an old analysis)."""
+import atexit
 import fcntl
 import glob
 import hashlib
@@ -28,6 +29,17 @@ class ExtractError(Exception):
     pass
 
 
+_OWNED = []
+
+
+def _cleanup():
+    for p in _OWNED:
+        shutil.rmtree(p, ignore_errors=True)
+
+
+atexit.register(_cleanup)
+
+
 def sysroot():
     return subprocess.check_output(['rustc', '+nightly', '--print', 'sysroot'], text=True).strip()
 
@@ -50,7 +62,11 @@ def extract(config, repo='/repo', tag=None):
     rid = hashlib.sha256(repo.encode()).hexdigest()[:10]
     tag = tag or rid
     work = os.path.join(CACHE, 'work', '%s-%s' % (config, tag))
-    out = os.path.join(CACHE, 'out', '%s-%s' % (config, tag))
+    # the fact files are private to this process (several checks may run concurrently on the same tree) and are
+    # removed when it exits
+    out = os.path.join(CACHE, 'out', '%s-%s-%d' % (config, tag, os.getpid()))
+    if out not in _OWNED:
+        _OWNED.append(out)
     target = os.path.join(CACHE, 'target-%s' % config)
     os.makedirs(os.path.join(CACHE, 'work'), exist_ok=True)
     os.makedirs(target, exist_ok=True)
